@@ -695,6 +695,8 @@ def corner_trees():
                                   _cmd("deep", subs=[_cmd("help", opts=[_opt("hh", "k")])])])]),
         # two commands with the same last name under different parents (and different pages)
         app([_cmd("remote", subs=[_cmd("add", args=[_arg("url", A_REQUIRED)])]), _cmd("user", subs=[_cmd("add", opts=[_opt("admin", "a")])])]),
+        # an application title (display name + version) longer than a narrow terminal: the title line is wrapped like any text
+        dict(app([_cmd("only")]), name="application-with-a-name", version="12.345.6789-beta.1+build.2024.10.05"),
         # elements without description (and nothing else special)
         app([_cmd("plain", opts=[_opt("nodesc", "x", desc=None)], args=[_arg("noarg", desc=None)])]),
     ]
